@@ -115,6 +115,11 @@ void conv(char const* desc)
                 }
                 X pred = wrap_to(v, width_of<DR>, is_sgn<DR>);
                 bool trapped = o.kind == UB_TRAP || o.kind == SIG;
+#if defined(NDEBUG)
+                // as-shipped build without UBSan: the same defects are real undefined behaviour and may yield any value
+                if ((ub || shift_ub) && (o.kind == VALUE || trapped)) cls = "intermediate_overflows_source_rep:undefined_in_release_build";
+                else
+#endif
                 if (shift_ub && trapped && !is_sgn<SR>) cls = "unsigned_scale_shift_ge_width";
                 else if (ub && trapped) cls = "intermediate_overflows_source_rep:trap";
                 else if (!ub && !shift_ub && o.kind == VALUE && got == pred && got2 == pred) cls = "intermediate_overflows_source_rep:wrapped";
